@@ -87,6 +87,8 @@ def contract_unit(c, tier='quick', probe=False, world_setup=None):
             world_setup(world)
         budget = Budget(prove_ms=20000 if ctx.tier == 'quick' else 120000,
                         max_paths=400 if ctx.tier == 'quick' else 2000)
+        if ctx.tier != 'quick':
+            budget.wall_s = 3000     # thorough: the largest shapes need it
         rep = verify_function(world, c, budget)
         out = []
         fn = c.target
